@@ -527,6 +527,25 @@ class Analysis:
     killed = []
     for a in args:
       killed += mut_targets(a)
+    # a callee that receives `&mut c` where c is a closure (or any aggregate) holding `&mut x` may write x as well
+    seen_k = set(killed)
+    work = list(killed)
+    while work:
+      tk = work.pop()
+      if not tk[1] and tk[0] in st.ref:
+        for tk2, m in st.ref[tk[0]]:
+          if m and tk2 not in seen_k:
+            seen_k.add(tk2)
+            killed.append(tk2)
+            work.append(tk2)
+    # a closure / aggregate passed by value carries its captured `&mut` places with it
+    for a in args:
+      src_ = a.get('c') or a.get('m')
+      if src_ and not src_.get('p') and src_['l'] in st.ref and len(st.ref[src_['l']]) > 1:
+        for tk2, m in st.ref[src_['l']]:
+          if m and tk2 not in seen_k:
+            seen_k.add(tk2)
+            killed.append(tk2)
     if dst is not None:
       if fn in PURE and not killed:
         s = ('pure', fn, tuple(self._opv(st, a) for a in args))
